@@ -1155,3 +1155,48 @@ func vLemmaColumnSnapshotWrapper(col *column, chunk commit.Chunk, dst *commit.Bu
 	vAssert("skips-exactly-indexes", ok == !col.IsIndex() && vDidSnapshot == b2i(ok))
 	vAssert("buffer-reset-and-named", !ok || (dst.IsEmpty() && dst.Column == col.name))
 }
+
+// ---------------------------------------------------------------------------------------------
+// Replay (C06): the transaction built for a replayed commit marks the commit's block dirty and takes over every
+// non-empty buffer of the commit, in order (stated per loop iteration by the step clause).
+//
+//@ loop target=column.(*Collection).Replay$1 index=0 props=C06
+func vLoopReplayBuffers(txn *Txn, change commit.Commit, rangeindex int) {
+	vInvariant(-1 <= rangeindex && rangeindex < len(change.Updates) &&
+		vForall(0, len(change.Updates), func(i int) bool { return change.Updates[i] != nil }) &&
+		int(uint32(change.Chunk)>>6) < len(txn.dirty) && vBit(txn.dirty, uint32(change.Chunk)))
+	n := len(txn.updates)
+	vBody()
+	buffer := change.Updates[rangeindex]
+	vStep("takes-every-non-empty-buffer", buffer == nil || (buffer.IsEmpty() && len(txn.updates) == n) ||
+		(!buffer.IsEmpty() && len(txn.updates) == n+1 && txn.updates[n] == buffer))
+}
+
+//@ lemma props=C06
+func vLemmaReplayBuilds(change commit.Commit) {
+	vAssume(change.Chunk < 1<<17 && vForall(0, len(change.Updates), func(i int) bool { return change.Updates[i] != nil }))
+	txn := &Txn{dirty: make(bitmap.Bitmap, 0, 4), updates: make([]*commit.Buffer, 0, 8)}
+	var res error
+	vCallAnonErr(&res, "column.(*Collection).Replay$1", []any{&change}, txn)
+	vAssert("no-error", res == nil)
+	vAssert("block-marked-dirty", int(uint32(change.Chunk)>>6) < len(txn.dirty) && vBit(txn.dirty, uint32(change.Chunk)))
+}
+
+// What a replayed commit may touch (C06): only its own block. The commit phase re-derives the dirty set from the
+// headers of every buffer it was given, so a buffer that also carries runs of other blocks makes those blocks dirty
+// too (known finding D8: emitted commits carry all buffers of the transaction).
+//
+//@ lemma props=C06 mode=paths real=column.(*Txn).commit
+func vLemmaReplayOnlyItsBlock(owner *Collection, chunk commit.Chunk, updates []*commit.Buffer) {
+	vAssume(owner != nil && owner.slock != nil && vNothingHeld() && owner.record == nil && chunk < 1<<17)
+	vAssume(len(owner.commits) < 1<<20 && vForall(0, len(owner.commits), func(k int) bool { return owner.commits[k] <= vNextID }))
+	vAssume(vForall(0, len(updates), func(i int) bool { return updates[i] != nil }) && len(owner.fill) < 1<<25)
+	lg := &vLogger{owner: owner}
+	// the transaction as the Replay callback leaves it (vLemmaReplayBuilds): its block marked, the commit's buffers taken over
+	txn := &Txn{owner: owner, dirty: make(bitmap.Bitmap, 0, 4), updates: updates, logger: lg, reader: commit.NewReader()}
+	txn.dirty.Set(uint32(chunk))
+	vCol = owner
+	vLogCount = 0
+	txn.commit()
+	vAssert("only-block(change.Chunk)", vLogCount == 0 || vLogLastChk == chunk)
+}
